@@ -54,6 +54,10 @@ func C15(c *core.Ctx) error {
 	outcomes := 0
 	core.ParallelFor(len(initials), func(i int) {
 		r := core.Run(c.Scratch, core.UserEnv(), 40*time.Minute, "", bin, initials[i], strconv.Itoa(depth))
+		if core.ResourceFailure(r) {
+			c.Skip("driver run from initial state %s timed out or was killed", initials[i])
+			return
+		}
 		if r.Exit != 0 {
 			c.Report("driver-crash:"+initials[i], "driver terminated abnormally from initial state "+initials[i]+": "+firstN(r.Stderr, 800), map[string]any{"initial": initials[i], "depth": depth})
 			return
